@@ -65,6 +65,19 @@ fn check_case(c: &SeqCase, obs: &mut Obs) -> Verdict {
             Err(p) => return Verdict::Fail(format!("{} with a re-entrant hook: {}", alg_name(c.alg), p)),
         }
     }
+    // ... and earlier diffs on this thread that were aborted or ran out of time in mid-run
+    if n + m <= 24 && (n + 2 * m) % 3 == 0 {
+        let _ = guard(|| poison_thread(alg_of(c.alg), &c.new, &c.old, n % 3));
+        similar::verif::clock::install(None);
+        match raw_events(&c, None) {
+            Ok(e2) if e2 == ev => {}
+            Ok(e2) => {
+                let (d2, i2, _) = events_cost(&e2);
+                return Verdict::Fail(format!("{}: after diffs that were aborted or ran out of time on the same thread the script has {} edits ({:?}), before {} ({:?}); a shortest script has {}", alg_name(c.alg), d2 + i2, e2, d + i, ev, want));
+            }
+            Err(p) => return Verdict::Fail(format!("{} after aborted diffs: {}", alg_name(c.alg), p)),
+        }
+    }
     // ... and the integer mapping of items whose lawful Hash is coarse (IdentifyDistinct + capture_diff)
     if n + m <= 40 {
         let oc: Vec<crate::oracle::items::Coarse> = c.old.iter().map(|x| crate::oracle::items::Coarse(*x)).collect();
@@ -269,7 +282,7 @@ impl Prop for C03 {
     type Case = SeqCase;
     const ID: &'static str = "C03";
     fn rule() -> String {
-        "cases = (Myers|Lcs, old, new, ranges, capture entry point), no deadline; size-ordered enumeration of all pairs over {0,1,2} plus proptest mixture (small alphabets, forced common prefix/suffix, sub-ranges; Myers with D in the hundreds; LCS on 130-420 distinct items rearranged by block moves or unrelated filler around a few shared blocks). Oracle: independent O(NM) LCS length L; raw stream and captured ops must delete+insert exactly N+M-2L items, keep exactly L, and ratio == 2L/(N+M) (f32, same rounding). Small cases are also diffed through a re-entrant hook (nested diffs inside the callbacks), through IdentifyDistinct ids of coarse-hash items, and against a transparent back-to-front view of the old Vec (same address): all must stay minimal. Non-trivial = 0 < L < min(N,M) and D > 0; distinct = distinct serialized case.".into()
+        "cases = (Myers|Lcs, old, new, ranges, capture entry point), no deadline; size-ordered enumeration of all pairs over {0,1,2} plus proptest mixture (small alphabets, forced common prefix/suffix, sub-ranges; Myers with D in the hundreds; LCS on 130-420 distinct items rearranged by block moves or unrelated filler around a few shared blocks). Oracle: independent O(NM) LCS length L; raw stream and captured ops must delete+insert exactly N+M-2L items, keep exactly L, and ratio == 2L/(N+M) (f32, same rounding). Small cases are also diffed through a re-entrant hook (nested diffs inside the callbacks), once more after diffs on the same thread that were aborted by a failing hook or ran out of time in mid-run, through IdentifyDistinct ids of coarse-hash items, and against a transparent back-to-front view of the old Vec (same address): all must stay minimal. Non-trivial = 0 < L < min(N,M) and D > 0; distinct = distinct serialized case.".into()
     }
     fn assumptions() -> Vec<String> {
         vec!["LCS inputs are mostly <= 100 items (its table is a BTreeMap), 1 case in ~120 has 130-420 items per side; Myers up to 900".into()]
